@@ -3,6 +3,7 @@ package main
 // C19 — zmodem hands the terminal back: life-cycle flag discipline.
 
 import (
+	"strings"
 	"fmt"
 	"go/token"
 
@@ -64,6 +65,43 @@ func c19R1(c *Ctx) {
 		}
 	}
 	c.check(uses, "detectZmodem/init-regexp", c.pos(f.Pos()), "detection uses the init-header regexp", "detection no longer uses the init-header regexp")
+	// the cancel marker itself: five CAN bytes (what ZMODEM defines as an abort; real aborts carry 5, 8 or 10 of them, in one read
+	// or split), a literal, contained in the sequence this code sends, and the marker both places look for
+	sub, okS := c.globalBytes("zmodemCancelSubSequence")
+	full, okF := c.globalBytes("zmodemCancelFullSequence")
+	c.check(okS && sub == "\x18\x18\x18\x18\x18", "cancel-marker/five-CAN", "", "the cancel marker is the literal five-CAN sequence", "the cancel marker is not the literal five-CAN sequence: shorter or split aborts from the remote side are no longer recognised")
+	c.check(okS && okF && strings.Contains(full, sub), "cancel-marker/sent-sequence-contains-it", "", "the cancel sequence this code sends contains the marker it looks for", "the cancel sequence sent does not contain the marker looked for")
+	so := c.fn("zmodemTransfer.handleServerOutput")
+	pre := false
+	for _, ci := range callsIn(so, idIs("bytes.Contains")) {
+		if globalName(ci.Common().Args[1]) == "zmodemCancelSubSequence" {
+			pre = true
+		}
+	}
+	c.check(pre, "handleServerOutput/pre-start-cancel-marker", c.pos(so.Pos()), "before the helper runs, a remote cancel is recognised by the five-CAN marker", "before the helper runs, a remote cancel is not looked for with the five-CAN marker (an 8-CAN abort or a split sequence leaves the session waiting)")
+}
+
+// globalBytes: the constant string a package-level []byte / string variable is initialised from.
+func (c *Ctx) globalBytes(name string) (string, bool) {
+	init := c.Funcs["init"]
+	if init == nil {
+		return "", false
+	}
+	val, found := "", false
+	eachInstr(init, func(in ssa.Instruction) {
+		st, ok := in.(*ssa.Store)
+		if !ok {
+			return
+		}
+		g, isG := st.Addr.(*ssa.Global)
+		if !isG || g.Name() != name {
+			return
+		}
+		if s, ok := constString(strip(st.Val)); ok {
+			val, found = s, true
+		}
+	})
+	return val, found
 }
 
 func isStoppedSet(in ssa.Instruction) bool {
